@@ -305,6 +305,20 @@ func SelectOrder(site string, n int) []int {
 	return order
 }
 
+// SelectOrderPinned: source order inside a simulation, nil outside. Used for selects whose permutation
+// only triggers a cancellation livelock unrelated to any property (pkg/sync/close_wait.go: the helper
+// goroutine may take its own Done branch and never mark the closer closed; see DESIGN.md §5).
+func SelectOrderPinned(site string, n int) []int {
+	if Cur() == nil {
+		return nil
+	}
+	order := make([]int, n)
+	for i := range order {
+		order[i] = i
+	}
+	return order
+}
+
 // MapOrderInts / MapOrderStrings: deterministic iteration orders for rewritten
 // `range m` loops: keys sorted, then rotated by the salt.
 func rotate(n int, site string) int {
